@@ -7,6 +7,8 @@
 //	U <n> <hex s>            | <hex result>               Trunc(s, n)
 //	C <hex a> <hex b>        | <int>                      CompareNatural(a, b)
 //	X <hex a> <hex b> <hex c> | <ab> <bc> <ac> <ba> <cb> <ca>  CompareNatural on a triple (order laws)
+//	N <hex s>                | nil | empty | <hex>,<hex>,...   Lines(s)        (supplementary, outside C20)
+//	P <hex s> <hex sep>      | nil | empty | <hex>,<hex>,...   Split(s, sep)   (supplementary, outside C20)
 //
 // A panic is recorded as "panic:<kind>".  The buffer handed to the mbits functions starts at an
 // 8-byte-aligned address, so off mod 8 is the alignment of the slice.
@@ -110,6 +112,28 @@ func exec(in string) string {
 			return p
 		}
 		return strconv.Itoa(r)
+	case "N", "P":
+		var r []string
+		if p := tr.Catch(func() {
+			if f[0] == "N" {
+				r = mstr.Lines(tr.UnHex(f[1]))
+			} else {
+				r = mstr.Split(tr.UnHex(f[1]), tr.UnHex(f[2]))
+			}
+		}); p != "" {
+			return p
+		}
+		if r == nil {
+			return "nil"
+		}
+		if len(r) == 0 {
+			return "empty"
+		}
+		hs := make([]string, len(r))
+		for i, x := range r {
+			hs[i] = tr.Hex(x)
+		}
+		return strings.Join(hs, ",")
 	case "X":
 		a, b, c := tr.UnHex(f[1]), tr.UnHex(f[2]), tr.UnHex(f[3])
 		var out []string
@@ -421,7 +445,7 @@ func mutateNat(r *tr.Rand, s string) string {
 }
 
 func main() {
-	tr.Main("C20. mbits: every zero/non-zero pattern of every length 0..L (L=10 quick, 15 thorough) plus, for lengths up to 40, all-zero, one and two non-zero bytes at every position; each at all 8 alignments inside a buffer with >= 8 guard bytes on both sides, guards 0xa5 and 0x00 (the whole buffer is compared after Zero). Trunc: every cut point n in -1..len+1 of every string of up to 3 (4) runes over an 11-rune alphabet of 1-4-byte encodings at the encoding-length boundaries, of every string of up to 4 (5) bytes over 8 valid/invalid byte classes, and of random mixed strings. CompareNatural: all ordered pairs of strings of length <= 3 (4) over {0 1 9 / : a}, all triples of strings of length <= 2 and random triples of length <= 4 (order laws), random longer strings with leading zeros and digit runs up to 25 digits, paired with mutations of themselves; digit runs within 2 of 2^63, 2^64, 2^64+2^63, 2^65, 10^18, 10^19 bare, with leading zeros and embedded (all pairs, random triples; the order laws are asserted there too), runs of 19-40 zeros. mbits also: slices of 4096, 4097, 4103 (thorough: 4095, 4104, 8195, 12288) bytes at alignments 0, 1, 7. Trunc also: n = 2^62-1. A case is non-trivial when the slice has a word loop or a non-zero byte / the cut is inside the string / a digit occurs.",
+	tr.Main("C20. mbits: every zero/non-zero pattern of every length 0..L (L=10 quick, 15 thorough) plus, for lengths up to 40, all-zero, one and two non-zero bytes at every position; each at all 8 alignments inside a buffer with >= 8 guard bytes on both sides, guards 0xa5 and 0x00 (the whole buffer is compared after Zero). Trunc: every cut point n in -1..len+1 of every string of up to 3 (4) runes over an 11-rune alphabet of 1-4-byte encodings at the encoding-length boundaries, of every string of up to 4 (5) bytes over 8 valid/invalid byte classes, and of random mixed strings. CompareNatural: all ordered pairs of strings of length <= 3 (4) over {0 1 9 / : a}, all triples of strings of length <= 2 and random triples of length <= 4 (order laws), random longer strings with leading zeros and digit runs up to 25 digits, paired with mutations of themselves; digit runs within 2 of 2^63, 2^64, 2^64+2^63, 2^65, 10^18, 10^19 bare, with leading zeros and embedded (all pairs, random triples; the order laws are asserted there too), runs of 19-40 zeros. mbits also: slices of 4096, 4097, 4103 (thorough: 4095, 4104, 8195, 12288) bytes at alignments 0, 1, 7. Trunc also: n = 2^62-1. Supplementary, outside the text of C20 (correspondence only): Lines on all strings up to 5 (6) over {a, LF, CR, b}; Split on all strings up to 4 (6) over {a , b} with separators empty, [,], a, aa, ab, [a,], on rune strings, and Split(s, empty) on valid/invalid byte strings. A case is non-trivial when the slice has a word loop or a non-zero byte / the cut is inside the string / a digit occurs.",
 		exec, func(g *tr.G) {
 			// ---- mbits
 			L := g.Scale(10, 15)
@@ -474,6 +498,35 @@ func main() {
 					}
 				}
 				emitTrunc(g, sb.String(), false, "random-mixed")
+			}
+			// ---- supplementary (outside C20): Lines and Split
+			allStrings([]string{"a", "\n", "\r", "b"}, g.Scale(5, 6), func(s string, k int) {
+				g.Emit("N "+tr.Hex(s), strings.Contains(s, "\n"), "supp-lines")
+			})
+			seps := []string{"", ",", "a", "aa", "ab", "a,", "\xa9", "\xc3\xa9"}
+			allStrings([]string{"a", ",", "b"}, g.Scale(4, 6), func(s string, k int) {
+				for _, sep := range seps[:6] {
+					g.Emit("P "+tr.Hex(s)+" "+tr.Hex(sep), s != "" && sep != "", "supp-split")
+				}
+			})
+			allStrings(runeAlpha[:6], 2, func(s string, k int) {
+				for _, sep := range seps {
+					g.Emit("P "+tr.Hex(s)+" "+tr.Hex(sep), s != "", "supp-split-runes")
+				}
+			})
+			allStrings(badAlpha, g.Scale(3, 4), func(s string, k int) {
+				g.Emit("P "+tr.Hex(s)+" -", s != "", "supp-split-explode-invalid")
+			})
+			for i := 0; i < g.Scale(300, 5000); i++ {
+				var sb strings.Builder
+				for k := g.R.Intn(8); k > 0; k-- {
+					if g.R.Chance(1, 4) {
+						sb.WriteString(tr.Pick(g.R, badAlpha))
+					} else {
+						sb.WriteString(tr.Pick(g.R, runeAlpha))
+					}
+				}
+				g.Emit("P "+tr.Hex(sb.String())+" -", true, "supp-split-explode-random")
 			}
 			// ---- CompareNatural
 			var small []string
